@@ -1,6 +1,8 @@
 import XpmVerif.Proofs.SerialValues
 import XpmVerif.Proofs.SerialGen2
+import XpmVerif.Proofs.SerialData
 import XpmVerif.Generated.SerialFlags
+import XpmVerif.Generated.SerialKeys
 /-! C12 — saving and loading a configuration graph loses nothing.
 
     Model: Model/Serial.lean (M5) — `serialize` (`__get_objects__`: post-order walk with the
@@ -163,6 +165,70 @@ theorem instances_see_values (fl : Flags) (lib : List Cls) (sg : SGraph) (root :
           (fun n => (n, ((sg.g.node n).args.filter present).map (fun a => (a.name, a.value))))) :=
   instanceValues_serialize fl lib sg root hwf hr
 
+/-- **Data files survive `save` / `load`** (the `DataPath` part of "loses nothing"; findings C12-N1, N2 — see
+    `datapath_prefix_witness` for the behaviour before the fixes).  `serialization.save(v, dir)` into a directory `base`
+    followed by `serialization.load(dir)` — for every well-formed graph, every value `v` (a configuration, or a
+    list / dictionary structure of configurations) and every file system `fs`, when the source numbers the saved
+    files by definition (`perObject`) and `load` forwards its data loader (`loadForwards`; both are source
+    obligations below) — returns `v` itself and, at every needed configuration `n`, the original object (class, type,
+    every argument, task link, pre-tasks; meta flag and init tasks as `load_serialize_iso`) in which every data
+    argument `a` that held a path now holds `base/<position of n>/<a>` (`placedArg`); that path names a file of the
+    save directory whose content is the content of the original file (both in the directory seen as a map of relative
+    names and in the file system after the save); and two data values are stored in the same file only if they are
+    the same argument of the same configuration (distinct originals ↦ distinct files). -/
+theorem datapath_round_trip (fl : Flags) (dfl : DFlags) (lib : List Cls) (sg : SGraph) (fs : FS) (v : Val) (base : List Nat)
+    (hN1 : dfl.perObject = true) (hN2 : dfl.loadForwards = true)
+    (hwf : WF sg.g) (hr : ∀ r ∈ cfgRefs v, r < sg.g.size)
+    (hok : ∀ n, Needed sg.g (cfgRefs v) n → NodeOk lib sg n) :
+    let order := serialOrder sg.g (cfgRefs v)
+    let place := fun (n : Nat) (a : List Nat) => inDir base (relName dfl (posOf order n) a)
+    ∃ L, loadSaved fl dfl lib base (save fl dfl lib sg fs v) = .ok (L, v) ∧
+      (∀ n, Needed sg.g (cfgRefs v) n →
+        lookupObj n L = some
+          { cname := sg.cls n,
+            node := { reloadNode fl (sg.g.node n) with
+                      args := ((sg.g.node n).args.map (placedArg dfl base (dataNames lib sg n) (posOf order n))) } }) ∧
+      (∀ n, Needed sg.g (cfgRefs v) n → ∀ a ∈ (sg.g.node n).args, (dataNames lib sg n).contains a.name = true →
+        ∀ s c, a.value = .path s → fsGet fs s = some c →
+          (placedArg dfl base (dataNames lib sg n) (posOf order n) a).value = .path (place n a.name) ∧
+          fsGet (save fl dfl lib sg fs v).dir (relName dfl (posOf order n) a.name) = some c ∧
+          fsGet (fsAfter base fs (copies dfl lib sg fs order)) (place n a.name) = some c) ∧
+      (∀ n n', Needed sg.g (cfgRefs v) n → Needed sg.g (cfgRefs v) n' → ∀ a a' : List Nat,
+        place n a = place n' a' → n = n' ∧ a = a') := by
+  intro order place
+  obtain ⟨L, hl, hobj⟩ := loadSaved_save fl dfl lib sg fs v base hN2 hwf hr hok
+  obtain ⟨_, hiff, _, _⟩ := serialOrder_spec sg.g (cfgRefs v) hwf hr
+  refine ⟨L, hl, hobj, ?_, ?_⟩
+  · intro n hn a ha hd s c hs hc
+    have hcont := saved_content dfl lib sg fs order base hN1
+      (fun m hm => (hok m ((hiff m).1 hm)).names) ((hiff n).2 hn) ha hd hs hc
+    refine ⟨?_, hcont.1, hcont.2⟩
+    simp only [placedArg, hd, hs]
+    rfl
+  · intro n n' hn hn' a a' h
+    exact saved_distinct dfl hN1 order base ((hiff n).2 hn) ((hiff n').2 hn') h
+
+/-- **The source is in the case of `datapath_round_trip`**, and wraps the recorded name of a data path in `Path(…)`
+    (C12-N3) — source obligations on `Gen.dataFlags`, which is regenerated from `core/objects.py` and
+    `core/serialization.py` on every run. -/
+theorem source_data_flags :
+    Gen.dataFlags.perObject = true ∧ Gen.dataFlags.loadForwards = true ∧ Gen.dataFlags.pathWrapped = true ∧
+    Gen.dataFlags.taskDirForwards = true := by
+  decide
+
+/-- **… in the job process** (no data loader, absolute names): a data argument is given a `Path` holding the recorded
+    path — the configured value (`instances_see_values` states it for every argument of every definition). -/
+theorem datapath_job_side (s : List Nat) : jobDataValue Gen.dataFlags s = .path s := by
+  simp [jobDataValue, source_data_flags.2.2.1]
+
+/-- **Tags**: the task code of `root` observes (`task.__tags__`, read from the `"tags"` member of `params.json`)
+    exactly the tags `root.tags()` gave when the file was written — same keys in the same order, same values —
+    for every graph and every assignment of tags (`str`, `int`, `float`, `bool` values) to its configurations. -/
+theorem tags_round_trip (g : Graph) (tg : Nat → Tags) (root : Nat)
+    (h : ∀ n, ∀ x ∈ tg n, isScalar x.2 = true) :
+    jobTags g tg root = .ok (collectTags g tg root) :=
+  decTags_encTags _ (collectTags_scalar g tg root h)
+
 /-! ### the hypotheses are needed: kernel-checked witnesses of the findings -/
 
 def lw : Cls := { name := [76], typeId := [108], args := [{ name := [118], value := .none }] }
@@ -301,5 +367,73 @@ example : NodeOk wlib (wg none [2] (.dict [[97]] [.int 1])) 0 :=
       simp [wg, Graph.node] at ha
       rcases ha with h | h <;> subst h <;> simp
   }
+
+/-! data paths: `class S(Config): x: Param[int]; dp: DataPath`, `class T(Task): a: Param[S]; b: Param[S]`;
+    `T(a=S(x=1, dp=/d/f1), b=S(x=2, dp=/d/f2))`, file contents 11 and 22. -/
+def clsS : Cls := { name := [83], typeId := [115], data := [[100, 112]],
+                    args := [{ name := [120], value := .none }, { name := [100, 112], ignored := true, value := .none }] }
+def clsT : Cls := { name := [84], typeId := [116], args := [{ name := [97], value := .none }, { name := [98], value := .none }] }
+def plib : List Cls := [clsS, clsT]
+def f1 : List Nat := [47, 100, 47, 102, 49]
+def f2 : List Nat := [47, 100, 47, 102, 50]
+def pg : SGraph :=
+  { g := { nodes := [ { typeId := [116], args := [{ name := [97], value := .ref 1 }, { name := [98], value := .ref 2 }] },
+                      { typeId := [115], args := [{ name := [120], value := .int 1 }, { name := [100, 112], ignored := true, value := .path f1 }] },
+                      { typeId := [115], args := [{ name := [120], value := .int 2 }, { name := [100, 112], ignored := true, value := .path f2 }] } ] },
+    cname := [[84], [83], [83]] }
+def pfs : FS := [(f1, 11), (f2, 22)]
+def sdir : List Nat := [47, 115]      -- "/s"
+def fixedD : DFlags := { perObject := true, loadForwards := true, pathWrapped := true }
+/-- the content of the file that the loaded object of `n` names in its argument `dp` -/
+def loadedContent (dfl : DFlags) (n : Nat) : Option Nat :=
+  match loadSaved newFlags dfl plib sdir (save newFlags dfl plib pg pfs (.ref 0)) with
+  | .ok (l, _) =>
+    (match ((lookupObj n l).bind (fun o => (o.node.args.find? (fun a => a.name == [100, 112])).map (·.value)) : Option Val) with
+     | some (Val.path s) => fsGet (fsAfter sdir pfs (copies dfl plib pg pfs (serialOrder pg.g [0]))) s
+     | _ => none)
+  | .error _ => none
+
+/-- C12-N1, N2, N3 — behaviour before the fixes, as counter-examples of `datapath_round_trip` / `datapath_job_side`:
+    with the argument name alone as relative name, both data files are stored as `dp`, the second copy overwrites the
+    first and the object loaded for the first configuration names a file with the content of the *second* (22 instead
+    of 11); without the loader forwarded, `load` raises; without `Path(…)`, the job process is given a `str`.
+    With the repaired flags the two objects name `/s/0/dp` and `/s/1/dp` holding 11 and 22. -/
+theorem datapath_prefix_witness :
+    loadedContent { fixedD with perObject := false } 1 = some 22 ∧
+    (save newFlags { fixedD with perObject := false } plib pg pfs (.ref 0)).dir = [([100, 112], 22), ([100, 112], 11)] ∧
+    (match loadSaved newFlags { fixedD with loadForwards := false } plib sdir (save newFlags fixedD plib pg pfs (.ref 0)) with
+     | .error .noDataLoader => true | _ => false) = true ∧
+    (match jobDataValue { fixedD with pathWrapped := false } f1 with | .str s => s == f1 | _ => false) = true ∧
+    loadedContent fixedD 1 = some 11 ∧ loadedContent fixedD 2 = some 22 ∧
+    (save newFlags fixedD plib pg pfs (.ref 0)).dir = [([49, 47, 100, 112], 22), ([48, 47, 100, 112], 11)] := by
+  decide
+
+/-- non-vacuity of the second save: the loaded value written into a second directory and loaded again names files of
+    the *second* directory that hold the original contents. -/
+example : (match saveLoadTwice newFlags fixedD plib pg pfs (.ref 0) sdir [47, 116] with
+    | .ok (_, _, s2, l2, _) =>
+      (s2.dir, l2.map (fun p => (p.1, (p.2.node.args.find? (fun a => a.name == [100, 112])).map (fun a => match a.value with | .path s => s | _ => []))))
+    | .error _ => ([], [])) =
+    ([([49, 47, 100, 112], 22), ([48, 47, 100, 112], 11)],
+     [(1, some [47, 116, 47, 48, 47, 100, 112]), (2, some [47, 116, 47, 49, 47, 100, 112]), (0, none)]) := by decide
+
+/-- tags: `T` tagged `model=3`, its sub-configuration 1 tagged `model=1, k=True`: the task's own tag wins, `k` is inherited. -/
+example : jobTags pg.g (fun n => if n = 0 then [([109], .int 3)] else if n = 1 then [([109], .int 1), ([107], .bool true)] else []) 0
+    = .ok (collectTags pg.g (fun n => if n = 0 then [([109], .int 3)] else if n = 1 then [([109], .int 1), ([107], .bool true)] else []) 0) :=
+  tags_round_trip _ _ _ (by intro n x hx; by_cases h0 : n = 0 <;> by_cases h1 : n = 1 <;> simp_all <;> rcases hx with rfl | rfl <;> rfl)
+example : (collectTags pg.g (fun n => if n = 0 then [([109], .int 3)] else if n = 1 then [([109], .int 1), ([107], .bool true)] else []) 0).map
+    (fun kv => (kv.1, match kv.2 with | .int i => i | .bool true => 1 | _ => 0)) = [([109], 3), ([107], 1)] := by decide
+
+example : WF pg.g := by
+  intro n hn m hm
+  have : n = 0 ∨ n = 1 ∨ n = 2 := by simp [Graph.size, pg] at hn; omega
+  rcases this with h | h | h <;> subst h <;> simp [succAll, pg, Graph.node, argRefs, cfgRefsL, cfgRefs, optL] at hm <;>
+    simp [Graph.size, pg] <;> omega
+example : NodeOk plib pg 1 :=
+  { cls := ⟨clsS, rfl, rfl, rfl⟩, names := by decide,
+    req := by
+      intro a ha
+      simp [pg, Graph.node] at ha
+      rcases ha with h | h <;> subst h <;> simp }
 
 end XpmVerif.C12
